@@ -135,21 +135,20 @@ class FindIdentifiers(_ast_util.NodeVisitor):
 
     def visit_ListComp(self, node):
         if self.in_function:
+            # the "for" clauses bind the names which the conditions and
+            # the element read
             for comp in node.generators:
-                self.visit(comp.target)
                 self.visit(comp.iter)
+                self.visit(comp.target)
+                for if_ in comp.ifs:
+                    self.visit(if_)
+            for name in ("elt", "key", "value"):
+                if hasattr(node, name):
+                    self.visit(getattr(node, name))
         else:
             self.generic_visit(node)
 
-    visit_SetComp = visit_GeneratorExp = visit_ListComp
-
-    def visit_DictComp(self, node):
-        if self.in_function:
-            for comp in node.generators:
-                self.visit(comp.target)
-                self.visit(comp.iter)
-        else:
-            self.generic_visit(node)
+    visit_SetComp = visit_GeneratorExp = visit_DictComp = visit_ListComp
 
     def _expand_tuples(self, args):
         for arg in args:
